@@ -461,7 +461,7 @@ def oracle_c17(h, st, b, prev=None):
 def gen_dyndep_pair(rnd, sid):
     """the same history on a graph with dyndep files and on the graph with that information inlined"""
     feat = dict(dyndep=1.0, deps=0.15, generator=0.0)
-    a = gen_history(rnd, sid + '_dd', rnd.randrange(2, 8), rnd.randrange(1, 5), feat=feat, faults=0.1, tokens=0.0, no_dd_mutation=True)
+    a = gen_history(rnd, sid + '_dd', rnd.randrange(2, 8), rnd.randrange(1, 5), feat=feat, faults=0.0, tokens=0.0, no_dd_mutation=True)
     b = a.transformed(sid + '_inl', engine.inline_dyndep)
     return a, b
 
